@@ -81,6 +81,7 @@ class Interp(ExprMixin):
         self.events = []
         self.lock_events = []   # (kind, cls, key, lockop, state, ctx, func)
         self.raise_sites = []   # (func, ast.Raise, state, ctx)
+        self.return_sites = []  # (func, ast.Return, state, value, ctx)
         self.unbound = []       # (function, name, line): a local read on a path on which nothing has bound it
         self.calls = []         # (callee qual, call node, ctx, func, state, argmap)
         self.exits = []         # (kind, label, state)
@@ -171,7 +172,29 @@ class Interp(ExprMixin):
         for x in states:
             cur = join(cur, x)
         total.normal = cur
+        total.ends = states
         return total
+
+    @staticmethod
+    def none_correlated(states):
+        """do these alternative continuations differ in whether some local is None?  (`x = look_up()` vs `x = None` in a
+        handler / other branch: what else is true on each side must stay attached to it - kept apart for the rest of the block)"""
+        states = [x for x in states if x is not None]
+        if len(states) < 2 or len(states) > 3:
+            return False
+        keys = set()
+        for x in states:
+            keys |= set(x.env)
+        for k in keys:
+            kinds = set()
+            for x in states:
+                v = x.env.get(k)
+                if not v:
+                    continue
+                kinds.add("none" if v == V(NONE) else ("some" if NONE not in v else "mixed"))
+            if "none" in kinds and "some" in kinds:
+                return True
+        return False
 
     def exec_stmt(self, s, st, frame) -> Out:
         self.stats["stmts"] += 1
@@ -314,6 +337,7 @@ class Interp(ExprMixin):
         else:
             val, st = self.eval(s.value, st, frame, out)
         out.add_return(st, val)
+        self.return_sites.append((frame.func, s, st, val, frame.ctx))
         return None
 
     def st_Break(self, s, st, frame, out):
@@ -377,11 +401,17 @@ class Interp(ExprMixin):
             o = self.exec_block(s.body, st_t, frame)
             out.absorb(o)
             res = join(res, o.normal)
+        ends = []
+        if dec is not False:
+            ends += [x for x in (o.ends or []) if x is not None]
         if dec is not True:
             st_f = self.refine_probe(f, False, self.refine(s.test, False, st.set(facts=F.add_fact(st.facts, f, False))))
             o = self.exec_block(s.orelse, st_f, frame)
             out.absorb(o)
             res = join(res, o.normal)
+            ends += [x for x in (o.ends or []) if x is not None]
+        if self.none_correlated(ends):
+            out.forks = ends
         return res
 
     @staticmethod
@@ -822,6 +852,7 @@ class Interp(ExprMixin):
                 inner.normal = o.normal
             else:
                 inner.normal = body.normal
+        try_normals = [inner.normal] if inner.normal is not None else []
         for pst, pval in body.ret_parts():
             inner.add_return(pst, pval)
         inner.brk = join(inner.brk, body.brk)
@@ -849,6 +880,8 @@ class Interp(ExprMixin):
                 inner.brk = join(inner.brk, unh(o.brk))
                 inner.cont = join(inner.cont, unh(o.cont))
                 inner.normal = join(inner.normal, unh(o.normal))
+                if o.normal is not None:
+                    try_normals.append(unh(o.normal))
                 self.handler_runs.append((frame.func, h, label, frame.ctx, o))
                 if m == "definite":
                     remaining = False
@@ -857,6 +890,8 @@ class Interp(ExprMixin):
                 inner.add_raise(label, rst)
         if not s.finalbody:
             out.absorb(inner)
+            if self.none_correlated(try_normals):
+                out.forks = try_normals
             return inner.normal
         # finally: run once per continuation kind
         res = None
